@@ -803,7 +803,9 @@ def c16(run):
                 "x layout by index / label / template x delimiter x skipped head lines x date format x row_order x balance column x conversion "
                 "(none, extract/compute x price_of_secondary/price_of_primary, disabled) x opening balance 0 / 500; a charge column (empty, 0.00, 1.00 per row; "
                 "the fee is a part of the row's amount and is taken out of the counter amount; the charge posting names the operator) under every "
-                "conversion mode, account type and column kind; non-trivial = every statement")
+                "conversion mode, account type and column kind; a commodity column (rows in USD or CHF, the balance column per commodity, the account "
+                "ending at the last balance in each); skipped head lines that are blank or contain the delimiter or an unbalanced quote; "
+                "non-trivial = every statement")
     run.assumptions += ["amounts and rates are of the form 2^a*5^b so computed secondary amounts are exact; values are compared numerically (scale is C15's)",
                         "the counter account and its pending mark are C17's and are not compared here",
                         "the balance column is generated for asset accounts only; a charge is a fee (positive) smaller than the row's amount",
